@@ -167,6 +167,13 @@ func (c *Conn) Write(packet []byte) (int, error) {
 		c.bytesSent.Add(uint64(n))
 		pair.UpdatePacketSent(n)
 	}
+	if err == nil && n < len(packet) {
+		// The candidate swallows socket errors; a write that was cut short because
+		// the agent closed meanwhile must not look like a success.
+		if closeErr := c.agent.loop.Err(); closeErr != nil {
+			return n, closeErr
+		}
+	}
 
 	return n, err
 }
@@ -235,6 +242,11 @@ func (c *Conn) WriteToPair(pairID uint64, packet []byte) (int, error) {
 	n, err := pair.Write(packet)
 	if n > 0 {
 		pair.UpdatePacketSent(n)
+	}
+	if err == nil && n < len(packet) {
+		if closeErr := c.agent.loop.Err(); closeErr != nil {
+			return n, closeErr
+		}
 	}
 
 	return n, err
